@@ -11,11 +11,11 @@ def m(name, prop, file, old, new):
 
 # ----------------------------------------------------------------------------- C01
 m("C01-deletenode-captures-only-time-track", "C01", "actions/add_delete_node.py",
-  "        for key in self.tracks.features.node_features:\n            val = self.tracks.get_node_attr(node, key)",
-  "        for key in (self.tracks.features.time_key, self.tracks.features.tracklet_key, self.tracks.features.lineage_key, *([self.tracks.features.position_key] if isinstance(self.tracks.features.position_key, str) else self.tracks.features.position_key)):\n            val = self.tracks.get_node_attr(node, key)")
+  "            for key, val in self.tracks.graph.nodes[node].items()\n            if val is not None",
+  "            for key, val in self.tracks.graph.nodes[node].items()\n            if val is not None and key != 'score'")
 m("C01-deleteedge-captures-no-attrs", "C01", "actions/add_delete_edge.py",
-  "        for key in self.tracks.features.edge_features:\n            val = tracks.get_edge_attr(edge, key)\n            if val is not None:",
-  "        for key in self.tracks.features.edge_features:\n            val = tracks.get_edge_attr(edge, key)\n            if val is not None and False:")
+  "            for key, val in self.tracks.graph.edges[self.edge].items()\n            if val is not None",
+  "            for key, val in self.tracks.graph.edges[self.edge].items()\n            if val is not None and False")
 m("C01-updatenodeseg-inverse-keeps-added", "C01", "actions/update_segmentation.py",
   "            added=not self.added,", "            added=self.added,")
 m("C01-updatetrackids-inverse-passes-new-ids", "C01", "actions/update_track_id.py",
@@ -138,8 +138,7 @@ m("C11-revert-D4-validate-after-removal", "C11", "user_actions/user_add_edge.py"
   "        # Check if making a merge.")
 m("C11-revert-D5-no-rollback", "C11", "user_actions/user_update_segmentation.py",
   "            for action in reversed(self.actions):\n                action.inverse()\n            raise", "            raise")
-m("C11-revert-D8-position-validated-late", "C11", "user_actions/user_add_node.py",
-  "            if not all(key in attributes for key in pos_keys):", "            if False and not all(key in attributes for key in pos_keys):")
+# (reverting D8 alone became equivalent under C11 once D14's rollback covered every AddNode failure)
 m("C11-swap-validates-after-breaking", "C11", "user_actions/_user_swap_predecessors.py",
   "        if pred2 is not None:\n            pred2_time = tracks.get_time(pred2)\n            if pred2_time >= time1:", "        if pred2 is not None and False:\n            pred2_time = tracks.get_time(pred2)\n            if pred2_time >= time1:")
 # ----------------------------------------------------------------------------- C14
@@ -193,14 +192,16 @@ m("C11-revert-D14-no-rollback-in-add-node", "C11", "user_actions/user_add_node.p
 m("C04-revert-D13-from-tracks-enables-only-on-recompute", "C04", "data_model/solution_tracks.py",
   "        soln_tracks.enable_features(id_keys, recompute=force_recompute)", "        if force_recompute:\n            soln_tracks.enable_features(id_keys, recompute=force_recompute)")
 m("C14-revert-D10-none-stored-on-undo", "C14", "actions/update_node_attrs.py",
-  "            if value is None:", "            if False:")
+  "        if value is None:\n            # the attribute was absent", "        if False:\n            # the attribute was absent")
 m("C05-revert-D2-delete-division-edge-keeps-lineage", "C05", "user_actions/user_delete_edge.py",
   "                    self.tracks.get_track_id(edge[1]),\n                    self.tracks.get_next_lineage_id(),", "                    self.tracks.get_track_id(edge[1]),\n                    None,")
 m("C05-revert-D2-new-division-keeps-lineage", "C05", "user_actions/user_add_edge.py",
   "                    self.tracks.get_track_id(target),\n                    self.tracks.get_lineage_id(source),", "                    self.tracks.get_track_id(target),\n                    None,")
 m("C05-revert-D2-delete-node-keeps-lineage", "C05", "user_actions/user_delete_node.py",
   "                    self.tracks.get_track_id(succ),\n                    self.tracks.get_next_lineage_id(),", "                    self.tracks.get_track_id(succ),\n                    None,")
-m("C01-revert-D9-per-axis-features-unregistered", "C01", "data_model/tracks.py",
+# (filed under C14 since D18: with every attribute captured on deletion the unregistered
+# per-axis keys no longer break inversion; they still break the internal-format round trip)
+m("C14-revert-D9-per-axis-features-unregistered", "C14", "data_model/tracks.py",
   "                    feature_dict[attr] = {", "                    features[attr] = {")
 m("C05-revert-D15-attributes-not-copied", "C05", "user_actions/user_add_node.py",
   "        attributes = dict(attributes)\n", "        attributes = attributes\n")
